@@ -124,9 +124,6 @@ def h_excl(m0: bool, m1: bool, m2: bool, m3: bool, m4: bool, d0: bool, d1: bool)
     """
     mb = [bool(m0), bool(m1), bool(m2), bool(m3), bool(m4)]
     d = [bool(d0), bool(d1)]
-    STATS["compared"] += 1
-    if P.get("_twin"):
-        return False
     why = None
     with scen.untraced():
         files, conf = TEMPLATES[P["t"]](d)
@@ -141,6 +138,9 @@ def h_excl(m0: bool, m1: bool, m2: bool, m3: bool, m4: bool, d0: bool, d1: bool)
             exp, _ = ref_cpp.run_platforms(fs, conf)
         except ref_cpp.Diagnostic:
             return True
+        STATS["compared"] += 1  # (after the reference: a template it rejects on every path must show up as vacuous)
+        if P.get("_twin"):
+            return False
         try:
             names_all = [n for n in names if "." in n.rsplit("/", 1)[1]]  # (everything that can be a member)
             st_all, _ = scen.run_cbi(fs, conf, names_all)
